@@ -150,7 +150,7 @@ def whole_value_stores(prog, type_name, crates=("pasfmt",)):
     return out
 
 
-def small_value_class(prog, body, rv):
+def small_value_class(prog, body, rv, _depth=0):
     """Abstract value of a stored u16 expression: a set of descriptors — ints, "[a,b]" for a clamp to constants, "min(_,k)", or the
     canonical text for anything else.  Calls of small loop-free workspace helpers are expanded through their decision table (so
     `clamp_helper(first, old)` with rows {1, 1, 2} is the set {1, 2})."""
@@ -161,6 +161,27 @@ def small_value_class(prog, body, rv):
     if rv["k"] not in ("use", "cast"):
         return {"?" + rv["k"]}
     op = rv["op"]
+    # a local assigned on several paths (`x = if c { a } else { b }`): the union of what each assignment can store
+    if op["k"] in ("copy", "move") and not op["place"]["p"] and _depth < 3:
+        ds = [d for d in body.defs.get(op["place"]["l"], []) if d[0] in ("assign", "call")]
+        if len(ds) > 1:
+            out = set()
+            for d in ds:
+                if d[0] == "assign" and d[3]["k"] == "assign":
+                    out |= small_value_class(prog, body, d[3]["rv"], _depth + 1)
+                elif d[0] == "call":
+                    t = d[2]
+                    cal = norm(t.get("resolved") or t.get("callee") or "")
+                    ints = [a.get("int") for a in t["args"][1:] if a["k"] == "const"]
+                    if cal.split("::")[-1] == "clamp" and len(ints) == 2 and None not in ints:
+                        out.add("[%s,%s]" % (ints[0], ints[1]))
+                    elif cal.split("::")[-1] == "min" and len(ints) == 1 and ints[0] is not None:
+                        out.add("min(_,%s)" % ints[0])
+                    else:
+                        out.add("call:" + cal.split("::")[-1])
+                else:
+                    out.add("?def")
+            return out
     c = canon(body, op)
     m = _re.match(r"^clamp\(.*,(\d+),(\d+)\)$", c)
     if m:
